@@ -79,7 +79,7 @@ def run(ctx) -> None:
     ctx.rule("R8", "omission logic: only non-literal segments take part in a group's all-zero test; the reader never refuses a renderable calendar value")
     ctx.rule("R9", "prerequisite: literal text of a pattern is recognised literally (C07/R1-R3), otherwise a rendering is not accepted by its own pattern")
     from sa.report import run_prerequisite
-    run_prerequisite(ctx, "C07", ("R1", "R2", "R3"), "R9")
+    run_prerequisite(ctx, "C07", ("R1", "R2", "R3", "R5"), "R9")
     ctx.rule("R10", "reading back: the calendar values the parser re-derives from the parsed date are bound to their own strftime directive (decimal), as in cal_info")
     from checks.c14 import calendar_producers_rule
     calendar_producers_rule(ctx, "R10")
